@@ -40,7 +40,7 @@ def plan(tier, seed):
 def mandatory_bins(tier):
     b = ["tagtype_%02x" % t for t in R.TAGTYPES] + ["ignored_%02x" % t for t in R.IGNORED]
     b += ["fmt_blob", "fmt_bf2compatible", "fmt_memoryimage", "page_crossing", "group_per_page", "one_group_all_pages", "debug_firmware", "release_firmware", "no_firmware_comment",
-          "multi_group_filter", "special_case_filter", "crc", "reboot", "versiondesc", "line_checksum_byte", "enforce_off_without_marker", "filter_comment_checked", "five_sections", "image_ge_64k", "source_is_a_file_name", "stream_positioned_after_other_content", "zero_length_data_line_inside_data", "instruction_separator_tab", "instruction_separator_several_blanks"]
+          "multi_group_filter", "special_case_filter", "crc", "reboot", "versiondesc", "line_checksum_byte", "enforce_off_without_marker", "filter_comment_checked", "five_sections", "image_ge_64k", "source_is_a_file_name", "stream_positioned_after_other_content", "zero_length_data_line_inside_data", "instruction_separator_tab", "instruction_separator_several_blanks", "last_page_of_a_tag_type_range"]
     b += ["reject:" + c for c in REJECT_CLASSES] + ["mem_gap_before_last_line", "mem_many_extents"]
     return b
 
@@ -316,6 +316,18 @@ def run_import(ns, ctx, spec):
                 secs.append(gen_ignored(rng, ib))
                 ctx.bin("ignored_%02x" % ib)
             s = gen_section(rng, ctx, base, big and k == 0)
+            if idx % 53 == 11 and k == 0:
+                # data in the LAST 64 KiB page the tag type owns (highest tag type value of its range)
+                pages = R.TAGTYPES[base][4]
+                if R.TAGTYPES[base][2] == R.FMT_BLOB:
+                    if pages <= 4:
+                        img = rng.randbytes(pages * 65536 - rng.choice((0, 1, 5)))
+                        s.lines = R.cut_image(rng, img)
+                        ctx.bin("last_page_of_a_tag_type_range")
+                else:
+                    s.lines = list(s.lines)[:3] + [(((pages - 1) << 16) | 0xFFE0, rng.randbytes(32)), (((pages - 1) << 16) | 0x0010, rng.randbytes(7))]
+                    s.lines = [(a, p_) for a, p_ in s.lines if (a >> 16) < pages]
+                    ctx.bin("last_page_of_a_tag_type_range")
             secs.append(s)
             ctx.bin("tagtype_%02x" % base)
             ctx.bin("fmt_blob" if R.TAGTYPES[base][2] == R.FMT_BLOB else "fmt_bf2compatible")
